@@ -453,7 +453,7 @@ func frameCoq(id int, in FInput, ob SObs) string {
 		fs = append(fs, hx.CoqBytes(f))
 	}
 	var me []string
-	for _, m := range sensorIPs {
+	for _, m := range meIPs {
 		me = append(me, fmt.Sprint(binary.BigEndian.Uint32(m[:])))
 	}
 	var sb strings.Builder
